@@ -279,6 +279,8 @@ def run_cases(cases, check, stats: Stats, known_match=None, distinct=False):
             except Violation as v:
                 stats.violations.append({"clause": v.clause, "case": v.case, "detail": v.detail})
                 seen.add(v.clause)
+                if v.clause.endswith("does-not-return"):
+                    break      # every further case would sit out the same watchdog: the verdict is in, stop enumerating
     finally:
         stats.assume_distinct = False
 
